@@ -89,4 +89,24 @@ PROPS = {
     trusted_base=TB_COMMON + ["tools/extract.py (field-order translator): a mis-parse makes the generated obligation fail or pass wrongly; its output is committed to the evidence"],
     assumptions=["payload handles do not outlive their channel", "setters initialise the slot without reading or dropping its previous bytes"],
  ),
+ "C18": dict(
+    level_text="Lean 4 proof for every execution of the stack model (both stacks): mutual exclusion of the critical region, the linearized history replayed on an abstract bounded stack is legal and yields the current content (LIFO), full/empty answers are exact at the linearization instant inside the call, multiset conservation; the two non-blocking queues are the zero-copy containers over ring models M1/M2 whose bounded-FIFO refinement is C02 (restated in C18_Queue for the atomic queue, C02_LockRing for the full-sync one). Tied to the code: step-level replay (atomic-flag stack at every flag access; parking-lot stack at operation granularity, its mutex is trusted), result-level Wing-Gong linearizability search on the stacks and real-time FIFO / empty / full oracles on the queues under the scheduler; free-running multi-core conservation runs.",
+    level_note="Theorems about models M12b (stacks) and M1/M2 (rings under the queues); parking_lot::RawMutex trusted to be a mutex; queue `full` is judged with slots held by operations in progress counted as taken (an allocate-then-publish design cannot refine a strictly atomic capacity-N queue); sequential consistency (the Relaxed unlock stores of the atomic stack are outside the model).",
+    lean=["C18", "C02_LockRing"],
+    scenarios=[dict(bin="misc", args=["sub=stack"], runs=1200, model_name="M12b Stack"), dict(bin="misc", args=["sub=plstack"], runs=800, model_name="M12b Stack"),
+               dict(bin="misc", args=["sub=aqueue"], runs=800, model=False, model_name="(oracle only)"), dict(bin="misc", args=["sub=fqueue"], runs=800, model=False, model_name="(oracle only)"),
+               dict(bin="misc", args=["sub=freerun"], runs=2, model=False, single=True, model_name="(free running)")],
+    rule="2-4 threads with random push/pop (enqueue/dequeue) scripts on capacity 2/4/8; scheduler picks at every hook; DISTINCT by trace hash; NON-TRIVIAL if a full/empty answer occurs or a thread spins on the flag",
+    trusted_base=TB_COMMON + ["parking_lot::RawMutex is a mutex"],
+    assumptions=[],
+ ),
+ "C19": dict(
+    level_text="Lean 4 proof for every execution of the CAS-loop model with an abstract floating-point update: the cell always equals the fold of the update over the measurements in commit order, every value ever stored (hence every reading) is the fold of a prefix - one (count, average) pair, never a mix -, each inc call commits exactly once, count = number of commits below the u32::MAX reset, split/join round trip, and over the rationals the recurrence computes the arithmetic mean exactly. Tied to the code: step-level replay with the update instantiated by the same IEEE single-precision formula (bit-exact comparison of every CAS); numeric mean tolerance checked by the oracle only.",
+    level_note="Theorems about model M12a; f32 rounding is outside the model (checked numerically by the harness: relative 1e-3); lightweight_probe (documented as possibly out of sync) is not covered; sequential consistency.",
+    lean=["C19"],
+    scenarios=[dict(bin="misc", args=["sub=incavg"], runs=2400, model_name="M12a IncAvg")],
+    rule="2-3 recording threads (1-5 measurements each incl. the -1.0 sentinel and 0) + a reading thread; scheduler picks at the load and at the CAS; DISTINCT by trace hash; NON-TRIVIAL if some CAS failed and was retried",
+    trusted_base=TB_COMMON + ["Lean's Float32 and Rust's f32 are both IEEE-754 binary32 with round-to-nearest (compared bit for bit on every run)"],
+    assumptions=["counts stay below the documented u32::MAX reset"],
+ ),
 }
